@@ -433,6 +433,7 @@ def run(ctx):
     importlib.import_module("rules.c05").counter_unchanged_on_refusal(db, rep, "D19-COUNTER-ON-REFUSAL")
     errno_cleared_before_judged(db, rep)
     out_params_not_read(db, rep)
+    growth_covers_need(db, rep)
     # "returns program objects that can be compiled ... safely": whatever size or offset the text declares, the compile returns.
     # The two search-loop rules of C05 (shared): a loop that shifts by its induction variable, or searches the rotations of a
     # value, bounds its steps.
@@ -724,4 +725,48 @@ def out_params_not_read(db, rep, rule="D22-OUT-PARAM-NOT-READ"):
                       (f.name, pn, bad.line if bad else "?", pn), line=bad.line if bad else None)
     if n < 5:
         raise AnalysisBroken("only %d out-parameters found in orcparse.c" % n)
+    return n
+
+
+def growth_covers_need(db, rep, rule="D23-GROWTH-COVERS-NEED"):
+    """A buffer that is grown on demand - `if (len + need >= size) { size = ...; buf = realloc (buf, size); }` followed by a write of
+    `need` bytes - holds the write only if the new size is computed FROM the need (or the growth is repeated until it fits).  A
+    growth step that does not look at the need (`size = size * 2`) is too small for one large record: the error log of
+    orc_parse_full is written past its block by a single long message.  For every such guarded growth in the library: a need
+    that is computed per record (a local defined inside the enclosing loop) must occur in the new size, unless the guard is
+    itself a loop."""
+    from facts import ASSIGN_OPS
+    n = 0
+    for f in db.all_functions():
+        if not f.relfile.startswith("orc/"):
+            continue
+        reallocs = [c for c in {c.id: c for c in f.calls()}.values() if c.name in ("realloc", "orc_realloc") and len(c.args()) > 1]
+        for c in reallocs:
+            cap = strip_casts(c.args()[1])
+            if cap is None or cap.k != "DeclRefExpr" or cap.get("dk") != "local":
+                continue
+            guard = next((a for a in c.ancestors() if a.k in ("IfStmt", "WhileStmt") and a.c[0] is not None and
+                          any(y.k == "DeclRefExpr" and y.name == cap.name for y in a.c[0].walk())), None)
+            if guard is None:
+                continue
+            encl = next((a for a in guard.ancestors() if a.k in ("ForStmt", "WhileStmt", "DoStmt")), None)
+            if encl is None:
+                continue
+            body_decls = {v.name for v in encl.walk() if v.k == "VarDecl"}
+            needs = sorted({y.name for y in guard.c[0].walk() if y.k == "DeclRefExpr" and y.get("dk") == "local" and y.name != cap.name and y.name in body_decls})
+            if not needs:
+                continue
+            n += 1
+            rep.saw(f)
+            ok = guard.k == "WhileStmt"
+            for st in guard.walk():
+                if st.k in ("BinaryOperator", "CompoundAssignOperator") and st.op in ASSIGN_OPS and access_path(st.c[0]) == cap.name:
+                    if any(y.k == "DeclRefExpr" and y.name in needs for y in st.c[1].walk()):
+                        ok = True
+            rep.check(ok, rule, where(f), "%s:%s" % (f.name, cap.name), "the grown size is computed from the need of the record about to be written",
+                      "%s grows `%s` under `%s` without looking at `%s`, the size of the record it is about to write: one record larger than the growth step "
+                      "is written past the block (the error log of orc_parse_full: a single long message)" % (f.name, cap.name, unparse(guard.c[0])[:50], ", ".join(needs)),
+                      line=guard.line)
+    if n < 1:
+        raise AnalysisBroken("no guarded buffer growth with a per-record need found (orc_parse_splat_error has moved)")
     return n
